@@ -701,7 +701,12 @@ fn handle_multiline_string(lexer: &mut Lexer, ctx: &mut StaticsContext, file_id:
             && let Some(c) = lexer.peek_char(*next)
             && c != '\n'
         {
-            *next += 1;
+            // `\X` is an escape pair: the X can never start the closing delimiter
+            if c == '\\' && lexer.peek_char(*next + 1).is_some_and(|c2| c2 != '\n') {
+                *next += 2;
+            } else {
+                *next += 1;
+            }
         }
 
         if lexer.at_triple_quote(*next) {
@@ -789,7 +794,18 @@ fn handle_multiline_string(lexer: &mut Lexer, ctx: &mut StaticsContext, file_id:
         } else {
             indent
         };
-        let slice1 = slice2.min(lexer.index + begin + indent);
+        // strip at most `indent` columns of leading whitespace (a tab counts as 4, as in
+        // calculate_indent), never anything else
+        let mut slice1 = lexer.index + begin;
+        let mut width = 0;
+        while slice1 < slice2 && width < indent {
+            match lexer.chars[slice1] {
+                ' ' => width += 1,
+                '\t' => width += 4,
+                _ => break,
+            }
+            slice1 += 1;
+        }
 
         for c in &lexer.chars[slice1..slice2] {
             string_val.push(*c);
